@@ -27,7 +27,7 @@ NoOrbiterKey == { [TplI EXCEPT !.mk = "MUT", !.aid = a, !.op = m] : a \in {"orbi
 Deposits == { DepositIn("uusdc", 5), DepositIn("ustake", 5) }
 Admins == { PauseProtocol("AUTH", "CCTP"), UnpauseProtocol("AUTH", "CCTP"), PauseCC("AUTH", "HYP", <<Cp1>>),
             PauseAction("AUTH", "FEE"), UnpauseAction("AUTH", "FEE"), PauseProtocol("M", "INT") }
-Envs == { EnvIn("ftfPause", ""), EnvIn("ftfUnpause", ""), EnvIn("block", "F1"), EnvIn("block", "U") }
+Envs == { EnvIn("nextblock", ""), EnvIn("ftfPause", ""), EnvIn("ftfUnpause", ""), EnvIn("block", "F1"), EnvIn("block", "U") }
 
 MCAlphabet == Transfers \cup BigTransfer \cup Others \cup NoOrbiterKey \cup Deposits \cup Admins \cup Envs \cup {ReimportIn}
 
